@@ -22,6 +22,8 @@ type Op struct {
 	ClearS  int64  `json:"clear_s,omitempty"`  // clear: duration = skew + ClearS seconds
 	SvcNT   int32  `json:"svc_nt,omitempty"`   // name-type of the service name as presented (0 = 1; not significant, RFC 4120 6.2)
 	Alt     bool   `json:"alt,omitempty"`      // presented through the process's second settings object (other clock skew)
+	ZoneMin int    `json:"zone_min,omitempty"` // the client time is encoded with this zone offset (minutes) instead of Z: same instant
+	Relabel string `json:"relabel,omitempty"`  // path=verify: the clear-text sname of the ticket is rewritten to HTTP/<this>; applied when the key found is the same (settings overriding the keytab principal, or the alias a<n> of the account of s<n>)
 }
 
 type TaskT struct {
@@ -42,20 +44,33 @@ type Tape struct {
 	Tasks   []TaskT `json:"tasks"`
 }
 
+// RelabelApplies: the rewritten sname leaves the key the service finds unchanged.
+func RelabelApplies(tp *Tape, op Op, throughAlt bool) bool {
+	if op.Relabel == "" || tp.Path != "verify" || len(op.Svc) < 2 {
+		return false
+	}
+	if throughAlt && tp.AltKt == op.Svc {
+		return true
+	}
+	return !(throughAlt && tp.AltKt != "") && op.Relabel == "a"+op.Svc[1:]
+}
+
 // verifyReady enables the full VerifyAPREQ path.
 const verifyReady = true
 
 var (
-	clients  = []string{"a", "b", "a/admin"}
+	// "a%admin" is the one-component name "a/admin" (another principal than the two-component a/admin);
+	// "a@OTHER.TEST" is the client a of another realm
+	clients  = []string{"a", "b", "a/admin", "a%admin", "a@OTHER.TEST"}
 	services = []string{"s1", "s2"}
 )
 
 func Meta() core.Meta {
 	return core.Meta{
 		Engine: "c02", Property: "C02", Level: "exploration",
-		Rule:        "case = one seeded run: 1-3 presenter tasks (1-8 presentations each over clients{a,b,a/admin} x client times{t0,+1us,+1s,late,early} x services{s1,s2} x service name-type{1,2,3} x 1-2 settings objects with different clock skews sharing the process's cache) plus the library's clean-up goroutine, interleaved by the seeded fake-time scheduler at every lock boundary of service/cache.go; distinct = distinct (shape, path, skew, interleaving hash of the ordered (task, lock site) sequence, outcome vector); non-trivial = at least two presentations of one identity inside the skew window, or a context switch inside a cache operation",
+		Rule:        "case = one seeded run: 1-3 presenter tasks (1-8 presentations each over clients{a,b,a/admin,a/admin as one component,a@other realm} x client times{t0,+1us,+1s,late,early; encoded with Z or a zone offset} x services{s1,s2} x service name-type{1,2,3} x rewritten clear-text ticket sname x 1-2 settings objects with different clock skews sharing the process's cache, the second one known to the cache from its first verification on) plus the library's clean-up goroutine, interleaved by the seeded fake-time scheduler at every lock boundary of service/cache.go; distinct = distinct (shape, path, skew, interleaving hash of the ordered (task, lock site) sequence, outcome vector); non-trivial = at least two presentations of one identity inside the skew window, or a context switch inside a cache operation",
 		SeededQuick: 20000, SeededThorough: 600000,
-		WorkloadProbes: []string{"same-identity-overlap", "late-window", "cleaner-between", "cross-service", "sequential-replay", "presentation-overlaps-cleanup", "replay-under-other-name-type", "replay-through-other-settings"},
+		WorkloadProbes: []string{"same-identity-overlap", "late-window", "cleaner-between", "cross-service", "sequential-replay", "presentation-overlaps-cleanup", "replay-under-other-name-type", "replay-through-other-settings", "replay-under-other-zone-encoding", "replay-with-rewritten-sname", "longer-skew-first-used-after-shorter-skew-elapsed", "window-closes-during-presentation"},
 		Components: map[string]string{
 			"service.Cache (IsReplay, AddEntry, getClientEntry, ClearOldEntries) + GetReplayCache clean-up goroutine": "real",
 			"service.VerifyAPREQ, messages.APReq.Verify, keytab, crypto (path=verify)":                                "real",
@@ -108,8 +123,27 @@ func Gen(caseID, tier string) (json.RawMessage, error) {
 			return tp.SkewS * 2_100_000_000
 		}
 	}
-	modes := []string{"min", "fast", "fast", "mixed", "mixed", "slow"}
-	switch r.Intn(10) {
+	modes := []string{"min", "fast", "fast", "mixed", "mixed", "slow", "stall"}
+	switch r.Intn(11) {
+	case 10: // window-edge: a replay presented just before the end of the skew window while a clean-up runs
+		tp.Shape = "window-edge"
+		cl, sv := r.Pick(clients...), r.Pick(services...)
+		t1 := TaskT{ID: 1, Sched: simrt.Sched{Seed: r.U64(), Mode: "min"}}
+		t3 := TaskT{ID: 3, Sched: simrt.Sched{Seed: r.U64(), Mode: r.Pick("stall", "stall", "slow", "mixed")}}
+		if r.Chance(1, 2) {
+			// the library's own clean-up goroutine wakes one skew period after the cache was made:
+			// exactly when an authenticator stamped at that instant stops being acceptable
+			t1.Ops = append(t1.Ops, Op{Op: "present", Client: cl, CtUs: 0, Svc: sv, ThinkNs: int64(r.Range(0, 900_000_000))})
+			t3.Ops = append(t3.Ops, Op{Op: "present", Client: cl, CtUs: 0, Svc: sv, ThinkNs: tp.SkewS*1_000_000_000 - int64(r.Range(0, 3_000))})
+			tp.Tasks = append(tp.Tasks, t1, t3)
+		} else {
+			oldCt := -skewUs + 200_000
+			t1.Ops = append(t1.Ops, Op{Op: "present", Client: cl, CtUs: oldCt, Svc: sv, ThinkNs: int64(r.Range(0, 300))})
+			t3.Ops = append(t3.Ops, Op{Op: "present", Client: cl, CtUs: oldCt, Svc: sv, ThinkNs: 200_000_000 - int64(r.Range(0, 3_000))})
+			t2 := TaskT{ID: 2, Sched: simrt.Sched{Seed: r.U64(), Mode: "min"}}
+			t2.Ops = append(t2.Ops, Op{Op: "clear", ThinkNs: 200_000_000 + int64(r.Range(1, 4_000_000))})
+			tp.Tasks = append(tp.Tasks, t1, t2, t3)
+		}
 	case 0, 1, 2, 3: // overlap: same identity presented by 2-3 tasks at (almost) the same time
 		tp.Shape = "overlap"
 		nt := r.Range(2, 3)
@@ -228,8 +262,8 @@ func Gen(caseID, tier string) (json.RawMessage, error) {
 	}
 	// not significant for identity: the name-type under which the service name is presented, and
 	// which of the process's settings objects (sharing the one replay cache) verifies
-	if r.Chance(1, 3) {
-		tp.AltMs = tp.SkewS * int64(r.PickInt(500, 500, 2000, 1000))
+	if r.Chance(1, 3) && tp.Shape != "window-edge" {
+		tp.AltMs = tp.SkewS * int64(r.PickInt(500, 500, 2000, 1000, 3000))
 		if tp.Path == "verify" && r.Chance(1, 2) {
 			tp.AltKt = r.Pick(services...)
 		}
@@ -245,6 +279,16 @@ func Gen(caseID, tier string) (json.RawMessage, error) {
 			}
 			if tp.AltMs != 0 && r.Chance(1, 2) {
 				o.Alt = true
+				if tp.AltKt == o.Svc && r.Chance(1, 2) {
+					o.Relabel = r.Pick("x1", "x2", "s1", "s2")
+				}
+			}
+			if o.Relabel == "" && tp.Path == "verify" && r.Chance(1, 8) {
+				// the ticket names another service principal name of the same account (same key)
+				o.Relabel = "a" + o.Svc[1:]
+			}
+			if r.Chance(1, 6) {
+				o.ZoneMin = r.PickInt(330, -210, 60, 345, -1)
 			}
 		}
 	}
